@@ -46,6 +46,12 @@ BUILT = {
  'C17': dict(cat='exploration', tech='exhaustive enumeration of the index maps against Python integer bit arithmetic for all (d,q) with q*d <= 10 (thorough 14); conversion monitors with own longdouble contraction and a Gram-matrix rounding model',
    text='ind_tt_to_qtt / ind_qtt_to_tt are inverse little-endian bijections for single indices and batches; tt_to_qtt keeps the TT ranks at mode boundaries, respects the cap inside modes, meets e*sqrt(q)+floor per core, and the QTT entry at bits(i) equals the TT entry at i; non powers of two rejected.',
    note='Not judged: cap binds; singular values inside the Gram rounding band (decided from numpy.linalg.svd of the input only).', ref='§4 C17'),
+ 'C11': dict(cat='exploration', tech='well-formedness / finiteness contract on every returned tensor and scalar over the cross product degenerate families x routines x flags, executed under NaN poison of np.empty; the library validator teneva.show as a second judge',
+   text='Exact-zero tensors (four constructions), rank 1, rank-deficient, over-ranked, d = 2, mode size 1 at every position, all modes 1, constant / zero data and repeated samples are pushed through truncate, orthogonalize, svd, svd_matrix, QTT conversion, add_many (incl. cancelling sums), cross, als (both modes), als_func, anova, anova_func and the Chebyshev transforms in every flag combination; results must be well-formed and finite, scalars finite, undefined accuracy = -1.',
+   note='accuracy_on_data against all-zero data recorded only; tt_to_qtt on mode size 1 (q = 0) outside its domain.', ref='§4 C11'),
+ 'C18': dict(cat='exploration', tech='exhaustive round trip of every grid index for n up to 4097 (thorough 1e6) per box, probes on both sides of every cell boundary with a longdouble arccos oracle, exact Fraction reference for poi_scale',
+   text='Uniform and Chebyshev index<->point maps: round trip, end points, images in the box, nearest node in the grid parameter (ties free), clamping outside; poi_scale affine with clipping; scalar/vector options and single/batch calls bit-identical; grid_flat order; ValueError for inconsistent option lengths; cdf_getter right-continuous.',
+   note='Boxes restricted to K n^2 2^-52 < 1e-3 (Chebyshev) / K n 2^-52 < 1e-3 (uniform), beyond which the nodes are not distinct doubles.', ref='§4 C18'),
  'C01': dict(cat='exploration', tech='shadow-value runtime monitor: random expression programs evaluated by the real functions, every node and observer compared with a longdouble / exact-integer dense shadow',
    text='Oracle on executions of the real add/sub/mul/outer/copy and all evaluation routines over generated programs and TT families; held on the K programs listed in the evidence, never "verified".',
    note='Trusted: NumPy longdouble arithmetic as dense reference; tolerance 10(sum ranks+d)2^-52*absbound; exact Python ints for integer cores.', ref='§4 C01'),
